@@ -37,7 +37,8 @@ var harness = &simcore.Harness{
 		"libs/pubsub/query.Query (New, Matches, Conditions) - the parser and the matcher",
 		"types.EventBus (PublishEventTx / NewBlock / NewBlockHeader / Vote / Publish, validateAndStringifyEvents) in bus runs and in index mode",
 		"state/txindex.IndexerService, state/txindex/kv.TxIndex (AddBatch, Get, Search), state/indexer/block/kv.BlockerIndexer (Index, Has, Search) over tm-db MemDB (+PrefixDB as node.go wires it)"},
-	Stub: []string{"subscribers and publishers are simulator actors (no RPC/websocket layer); publications are generated attribute maps / ABCI events, not produced by a block executor",
+	Stub: []string{"index mode fault: the index DB (MemDB behind a wrapper) can stall - batch Write/WriteSync parks until the simulator releases it - while the schedule keeps committing (mostly empty) blocks; pubsub mode fault: Subscribe with a context that expires / is already cancelled while the server loop is blocked on an unread unbuffered subscriber, followed by a retry",
+		"subscribers and publishers are simulator actors (no RPC/websocket layer); publications are generated attribute maps / ABCI events, not produced by a block executor",
 		"index mode: blocks are (height, begin/end events, txs with DeliverTx results) records published in the order state/execution.go fireEvents uses; no consensus, no stores"},
 	Assumptions: []string{"query-language semantics taken from rpc/openapi /subscribe, docs/app-dev/indexing-transactions.md and the package docs of libs/pubsub/query: AND of conditions, a condition holds if ANY value of the composite key satisfies it, an operand whose type does not fit a value does not match that value",
 		"cases the documentation leaves open (integer operand against a non-integral value, numeric operand against a value that merely contains digits, EXISTS on a key without a dot, two range conditions on one multi-valued key) are accepted either way",
@@ -83,6 +84,7 @@ func genConfig(rng *simcore.RNG, env *simcore.Env) simcore.Op {
 		c["f_height_and"] = rng.Bool(0.15)
 		c["f_height_str"] = rng.Bool(0.1)
 		c["f_slash"] = rng.Bool(0.15)
+		c["stall"] = rng.Bool(0.6) // fault: the index DB stalls while (mostly empty) blocks keep being committed
 	}
 	return c
 }
